@@ -256,3 +256,25 @@ def register(claim):
         'follows from the kinetic-energy form.',
         'algebraic value numbering vs first-principles reference dynamics, decided by random interpretation',
         'DESIGN.md §3 C02')
+
+  claim('C05', 'other',
+        'Static relational check: pipeline.init and pipeline.step of all three native pipelines (whole '
+        'programs incl. kinematics, com, scan.py regrouping, joints / dynamics / mass matrix / '
+        'integrators and the world_to_joint / inverse read-back) are abstractly interpreted from their '
+        'AST on symbolic free-rooted, contact-free models twice and compared field by field: (R5.1) the '
+        'run on the rigidly moved scene (root pose, root linear velocity and gravity moved by a unit '
+        'quaternion by construction and a symbolic translation) equals the moved run -- link poses '
+        'G o x, velocities R xd, root coordinates moved, every non-root joint coordinate and velocity '
+        'unchanged; (R5.2) the run on the same model with its links listed in another topological '
+        'order equals the permuted run; (R5.3) the run on two merged models equals the two separate '
+        'runs (generalized pipeline with the exact mass-matrix inverse).  Identities of rational '
+        'functions of all model parameters, coordinates, velocities, joint forces, gravity and the '
+        'transform, decided by random interpretation in GF(2^61-1).',
+        'Trusted: python ast, AVN interpreter, unit quaternions / axes by construction, square roots '
+        'and inverse-trig / comparison helpers as uninterpreted atoms keyed by the images of their '
+        'arguments (equal results iff invariant arguments).  Contact-free scenes; joint limits '
+        'instantiated for spring / positional only; actuation as a symbolic joint-space force on '
+        'non-root dofs (to_tau itself: C11); <= 5 links, 1-2 steps; armature / damping only on hinge / '
+        'slide dofs (per-axis values on a free joint are not a frame-independent model).',
+        'relational (two-run) algebraic value numbering of whole pipelines, decided by random interpretation',
+        'DESIGN.md §3 C05')
